@@ -45,7 +45,7 @@ def pool():
 
 def all_notations():
     groups, by_label, defs = notations.registry()
-    return [n for k in ('prop', 'defn', 'kore', 'gen') for n in groups[k]]
+    return [n for k in ('prop', 'defn', 'kore', 'gen', 'wide') for n in groups[k]]
 
 
 @st.composite
